@@ -327,6 +327,9 @@ func runTwoHubs(id int, seed int64, nops int) *thResult {
 		k := rnd.Intn(100)
 		if targeted && rnd.Intn(3) == 0 {
 			k = 93 + rnd.Intn(5)
+			if rnd.Intn(4) == 0 {
+				k = 200
+			}
 		}
 		switch {
 		case k < 32:
@@ -390,6 +393,38 @@ func runTwoHubs(id int, seed int64, nops int) *thResult {
 			n.via.setCut(false)
 			cutNow[n.name] = false
 			op("heal" + n.name)
+		case k == 200:
+			// the user removes the service (or cancels the pairing) while the hub is establishing the connection to it
+			if rnd.Intn(3) != 0 && o.running {
+				o.hub.RegisterRemoteSKI(n.ski)
+				reg[o.name] = true
+				cancelled[o.name] = false
+			}
+			n.hub.RegisterRemoteSKI(o.ski)
+			n.mdns.publish(o.entry())
+			vis[n.name] = true
+			a.via.mu.Lock()
+			lat := a.via.lat
+			a.via.mu.Unlock()
+			time.Sleep(time.Duration(1+rnd.Intn(5)) * lat)
+			what := "unreg"
+			if rnd.Intn(2) == 0 {
+				n.hub.UnregisterRemoteSKI(o.ski)
+			} else {
+				n.hub.CancelPairingWithSKI(o.ski)
+				what = "cancel"
+				cancelled[n.name] = true
+			}
+			reg[n.name] = false
+			op("reg" + n.name + ",vis" + n.name + "," + what + n.name + "DuringDial")
+			// what was under way has to die: no connection of this SKI may get anywhere, the SKI stays untrusted
+			time.Sleep(time.Duration(1200+rnd.Intn(600)) * time.Millisecond)
+			if !auto[n.name] {
+				f := n.facts(o)
+				if f.trusted || f.connState == int(model.SmeStateComplete) || f.connState == int(model.SmeHelloStateOk) {
+					res.bad = append(res.bad, fmt.Sprintf("C10 the user of %s removed the peer (%s) while %s was establishing the connection to it: about 1.5 s later %s trusts the peer = %v and holds a connection in handshake state %d", n.name, what, n.name, n.name, f.trusted, f.connState))
+				}
+			}
 		case k < 96 && targeted:
 			// the path between the hubs fails at the moment this hub's connection is in a chosen handshake state
 			n.hub.RegisterRemoteSKI(o.ski)
@@ -624,8 +659,8 @@ func runTwoHubs(id int, seed int64, nops int) *thResult {
 		if !trusts(p.n.name) && !trusts(other(p.n).name) && complete(p.f) {
 			bad("C10", "neither hub trusts the other, yet %s holds a completed connection", p.n.name)
 		}
-		if !reg[p.n.name] && !auto[p.n.name] && complete(p.f) && !p.f.trusted {
-			bad("C10", "%s does not trust the peer (unregistered or cancelled, auto-accept off) yet holds a completed connection", p.n.name)
+		if !reg[p.n.name] && !auto[p.n.name] && complete(p.f) {
+			bad("C10", "the user of %s has not registered the peer (or has unregistered / cancelled it since), auto-accept is off, yet %s holds a completed connection (trusted=%v)", p.n.name, p.n.name, p.f.trusted)
 		}
 	}
 	_ = someoneDials
